@@ -19,6 +19,26 @@ theorem foldl_max_mem (db : List Row) (m : Nat) : ∀ r ∈ db, r.id ≤ db.fold
 
 theorem le_maxId {db : List Row} {r : Row} (h : r ∈ db) : r.id ≤ maxId db := foldl_max_mem db 0 r h
 
+theorem foldl_natmax_ge (l : List Nat) (m : Nat) : m ≤ l.foldl max m := by
+  induction l generalizing m with
+  | nil => simp
+  | cons a t ih => simp only [List.foldl_cons]; exact Nat.le_trans (Nat.le_max_left _ _) (ih _)
+
+theorem foldl_natmax_mem (l : List Nat) (m : Nat) : ∀ n ∈ l, n ≤ l.foldl max m := by
+  induction l generalizing m with
+  | nil => simp
+  | cons a t ih =>
+    intro n hn
+    simp only [List.foldl_cons]
+    rcases List.mem_cons.1 hn with rfl | hn
+    · exact Nat.le_trans (Nat.le_max_right _ _) (foldl_natmax_ge _ _)
+    · exact ih _ n hn
+
+theorem maxId_le_all (db : List Row) (tomb : List Nat) : maxId db ≤ maxIdAll db tomb := Nat.le_max_left _ _
+
+theorem tomb_le_all (db : List Row) {tomb : List Nat} {n : Nat} (h : n ∈ tomb) : n ≤ maxIdAll db tomb :=
+  Nat.le_trans (foldl_natmax_mem tomb 0 n h) (Nat.le_max_right _ _)
+
 def mkRow (kv : Nat × Nat) : Row := { id := kv.1, key := kv.2, sent := false }
 
 theorem mem_genKeys {start key count : Nat} {kv : Nat × Nat} :
@@ -34,7 +54,8 @@ theorem level_db (p : Params) (s : St) (f : Bool) :
     (levelPrekeys p s f).1.db = s.db ++ (levelPrekeys p s f).2.map mkRow := by
   unfold levelPrekeys; split <;> simp [mkRow]
 
-theorem level_fresh (p : Params) (s : St) (f : Bool) : ∀ kv ∈ (levelPrekeys p s f).2, maxId s.db < kv.1 := by
+theorem level_fresh (p : Params) (s : St) (f : Bool) :
+    ∀ kv ∈ (levelPrekeys p s f).2, maxIdAll s.db s.tomb < kv.1 := by
   unfold levelPrekeys; split
   · intro kv hkv
     obtain ⟨i, _, rfl⟩ := mem_genKeys.1 hkv
@@ -47,6 +68,8 @@ theorem level_nodup (p : Params) (s : St) (f : Bool) : ((levelPrekeys p s f).2.m
   · simp
 
 @[simp] theorem level_unsent (p : Params) (s : St) (f : Bool) : (levelPrekeys p s f).1.unsent = s.unsent := by
+  unfold levelPrekeys; split <;> rfl
+@[simp] theorem level_tomb (p : Params) (s : St) (f : Bool) : (levelPrekeys p s f).1.tomb = s.tomb := by
   unfold levelPrekeys; split <;> rfl
 @[simp] theorem level_inflight (p : Params) (s : St) (f : Bool) : (levelPrekeys p s f).1.inflight = s.inflight := by
   unfold levelPrekeys; split <;> rfl
@@ -77,7 +100,7 @@ theorem row_unique {db : List Row} (h : (db.map Row.id).Nodup) {r r' : Row} (hr 
     · exact ih hnt hq hq'
 
 theorem nodup_ext {db : List Row} (h : (db.map Row.id).Nodup) {ks : List (Nat × Nat)}
-    (hf : ∀ kv ∈ ks, maxId db < kv.1) (hk : (ks.map Prod.fst).Nodup) :
+    {tomb : List Nat} (hf : ∀ kv ∈ ks, maxIdAll db tomb < kv.1) (hk : (ks.map Prod.fst).Nodup) :
     ((db ++ ks.map mkRow).map Row.id).Nodup := by
   rw [List.map_append, List.map_map]
   have : (Row.id ∘ mkRow) = Prod.fst := by funext kv; rfl
@@ -88,7 +111,19 @@ theorem nodup_ext {db : List Row} (h : (db.map Row.id).Nodup) {ks : List (Nat ×
   obtain ⟨kv, hkv, rfl⟩ := List.mem_map.1 hb
   have := le_maxId hr
   have := hf kv hkv
+  have := maxId_le_all db tomb
   omega
+
+theorem notTomb_ext {db : List Row} {tomb : List Nat} (h8 : ∀ r ∈ db, r.id ∉ tomb) {ks : List (Nat × Nat)}
+    (hf : ∀ kv ∈ ks, maxIdAll db tomb < kv.1) : ∀ r ∈ db ++ ks.map mkRow, r.id ∉ tomb := by
+  intro r hr hm
+  rcases List.mem_append.1 hr with hr | hr
+  · exact h8 r hr hm
+  · obtain ⟨kv, hkv, rfl⟩ := List.mem_map.1 hr
+    have := hf kv hkv
+    have := tomb_le_all db hm
+    simp only [mkRow] at this
+    omega
 
 theorem mem_unsentOf {db : List Row} {kv : Nat × Nat} :
     kv ∈ unsentOf db ↔ ∃ r ∈ db, r.sent = false ∧ (r.id, r.key) = kv := by
@@ -128,21 +163,24 @@ def Inv (s : St) : Prop :=
   (∀ kv ∈ s.offered, kv ∈ s.consumed ∨ ∃ r ∈ s.db, r.id = kv.1 ∧ r.key = kv.2) ∧
   (∀ u ∈ s.inflight, ∀ kv ∈ u.keys, kv ∈ s.offered) ∧
   (s.connectedNow = true → s.unsent ≠ [] → s.passiveProp = true) ∧
-  (s.authedNow = true → s.connectedNow = true)
+  (s.authedNow = true → s.connectedNow = true) ∧
+  (∀ r ∈ s.db, r.id ∉ s.tomb) ∧
+  (∀ kv ∈ s.consumed, kv.1 ∈ s.tomb) ∧
+  (∀ a ∈ s.consumed, ∀ b ∈ s.consumed, a.1 = b.1 → a = b)
 
 theorem inv_init : Inv {} := by
   simp [Inv]
 
 theorem inv_connect (p : Params) (s : St) (h : Inv s) : Inv (step p s .connect).1 := by
-  obtain ⟨h1, h2, h3, h4, h5, h6, h7⟩ := h
+  obtain ⟨h1, h2, h3, h4, h5, h6, h7, h8, h9, h10⟩ := h
   have hdb := level_db p s false
   have hfresh := level_fresh p s false
   have hnd := level_nodup p s false
   simp only [step, Inv, level_unsent, level_inflight, level_passiveProp, level_connectedNow, level_authedNow,
-    level_offered, level_confirmed, level_consumed]
+    level_offered, level_confirmed, level_consumed, level_tomb]
   rw [hdb]
   generalize (levelPrekeys p s false).2 = ks at hfresh hnd
-  refine ⟨nodup_ext h1 hfresh hnd, ?_, by simp, ?_, by simp, ?_, by simp⟩
+  refine ⟨nodup_ext h1 hfresh hnd, ?_, by simp, ?_, by simp, ?_, by simp, notTomb_ext h8 hfresh, h9, h10⟩
   · intro kv hkv
     rcases List.mem_append.1 hkv with hk | hk
     · obtain ⟨r, hr, x⟩ := h2 kv hk
@@ -161,13 +199,13 @@ theorem inv_connect (p : Params) (s : St) (h : Inv s) : Inv (step p s .connect).
 
 theorem inv_authed (p : Params) (s : St) (h : Inv s) (passive : Bool)
     (ha : Allowed s (.authed passive) = true) : Inv (step p s (.authed passive)).1 := by
-  obtain ⟨h1, h2, h3, h4, h5, h6, h7⟩ := h
+  obtain ⟨h1, h2, h3, h4, h5, h6, h7, h8, h9, h10⟩ := h
   simp only [Allowed, Bool.and_eq_true, Bool.not_eq_true', beq_iff_eq] at ha
   obtain ⟨⟨hc, hna⟩, hp⟩ := ha
   simp only [step]
   split
   · simp only [Inv, flushKeys]
-    refine ⟨h1, by simp, by simp, ?_, ?_, by simp, fun _ => hc⟩
+    refine ⟨h1, by simp, by simp, ?_, ?_, by simp, fun _ => hc, h8, h9, h10⟩
     · intro kv hkv
       rcases List.mem_append.1 hkv with hk | hk
       · exact h4 kv hk
@@ -191,22 +229,23 @@ theorem inv_authed (p : Params) (s : St) (h : Inv s) (passive : Bool)
           | nil => exact absurd hx hne
           | cons _ _ => rfl
         simp [this, hne'] at hb
-    exact ⟨h1, h2, fun _ => hu, h4, h5, h6, fun _ => hc⟩
+    exact ⟨h1, h2, fun _ => hu, h4, h5, h6, fun _ => hc, h8, h9, h10⟩
 
 theorem inv_serverAsksKeys (p : Params) (s : St) (h : Inv s)
     (ha : Allowed s .serverAsksKeys = true) : Inv (step p s .serverAsksKeys).1 := by
-  obtain ⟨h1, h2, h3, h4, h5, h6, h7⟩ := h
+  obtain ⟨h1, h2, h3, h4, h5, h6, h7, h8, h9, h10⟩ := h
   have hau : s.authedNow = true := ha
   have hu := h3 hau
   have hdb := level_db p s true
   have hfresh := level_fresh p s true
   have hnd := level_nodup p s true
   simp only [step, Inv, flushKeys, level_unsent, level_inflight, level_passiveProp, level_connectedNow,
-    level_authedNow, level_offered, level_confirmed, level_consumed]
+    level_authedNow, level_offered, level_confirmed, level_consumed, level_tomb]
   rw [hdb]
   generalize (levelPrekeys p s true).1.nextRid = rid
   generalize (levelPrekeys p s true).2 = ks at hfresh hnd
-  refine ⟨nodup_ext h1 hfresh hnd, by simp [hu], fun _ => hu, ?_, ?_, fun _ hne => absurd hu hne, h7⟩
+  refine ⟨nodup_ext h1 hfresh hnd, by simp [hu], fun _ => hu, ?_, ?_, fun _ hne => absurd hu hne, h7,
+    notTomb_ext h8 hfresh, h9, h10⟩
   · intro kv hkv
     rcases List.mem_append.1 hkv with hk | hk
     · rcases h4 kv hk with hc | ⟨r, hr, x⟩
@@ -239,9 +278,9 @@ theorem inv_uploaded (s : St) (h : Inv s) (hu : s.unsent = []) (rid : Nat) (ids 
     Inv { s with inflight := s.inflight.filter (fun x => x.rid != rid),
                  db := s.db.map (fun r => if ids.contains r.id then { r with sent := true } else r),
                  confirmed := s.confirmed ++ keys, rebootFlag := rb } := by
-  obtain ⟨h1, h2, h3, h4, h5, h6, h7⟩ := h
+  obtain ⟨h1, h2, h3, h4, h5, h6, h7, h8, h9, h10⟩ := h
   simp only [Inv]
-  refine ⟨by rw [map_mark_ids]; exact h1, by simp [hu], h3, ?_, ?_, h6, h7⟩
+  refine ⟨by rw [map_mark_ids]; exact h1, by simp [hu], h3, ?_, ?_, h6, h7, ?_, h9, h10⟩
   · intro kv hkv
     rcases h4 kv hkv with hc | ⟨r, hr, a, b⟩
     · exact Or.inl hc
@@ -249,6 +288,10 @@ theorem inv_uploaded (s : St) (h : Inv s) (hu : s.unsent = []) (rid : Nat) (ids 
       exact Or.inr ⟨r', hr', a'.trans a, b'.trans b⟩
   · intro u hu kv hkv
     exact h5 u (List.mem_filter.1 hu).1 kv hkv
+  · intro r' hr'
+    obtain ⟨r, hr, rfl⟩ := List.mem_map.1 hr'
+    have := h8 r hr
+    split <;> exact this
 
 theorem inv_uploadResult (p : Params) (s : St) (h : Inv s) (rid : Nat)
     (ha : Allowed s (.uploadResult rid) = true) : Inv (step p s (.uploadResult rid)).1 := by
@@ -267,18 +310,18 @@ theorem inv_uploadError (p : Params) (s : St) (h : Inv s) (rid : Nat) :
   simp only [step]
   split
   · exact h
-  · obtain ⟨h1, h2, h3, h4, h5, h6, h7⟩ := h
-    exact ⟨h1, h2, h3, h4, fun u hu kv hkv => h5 u (List.mem_filter.1 hu).1 kv hkv, h6, h7⟩
+  · obtain ⟨h1, h2, h3, h4, h5, h6, h7, h8, h9, h10⟩ := h
+    exact ⟨h1, h2, h3, h4, fun u hu kv hkv => h5 u (List.mem_filter.1 hu).1 kv hkv, h6, h7, h8, h9, h10⟩
 
 theorem inv_disconnected (p : Params) (s : St) (h : Inv s) : Inv (step p s .disconnected).1 := by
-  obtain ⟨h1, h2, h3, h4, h5, h6, h7⟩ := h
+  obtain ⟨h1, h2, h3, h4, h5, h6, h7, h8, h9, h10⟩ := h
   simp only [step]
-  split <;> exact ⟨h1, h2, by simp, h4, by simp, by simp, by simp⟩
+  split <;> exact ⟨h1, h2, by simp, h4, by simp, by simp, by simp, h8, h9, h10⟩
 
 theorem inv_restart (p : Params) (s : St) (h : Inv s) : Inv (step p s .restart).1 := by
-  obtain ⟨h1, h2, h3, h4, h5, h6, h7⟩ := h
+  obtain ⟨h1, h2, h3, h4, h5, h6, h7, h8, h9, h10⟩ := h
   simp only [step]
-  exact ⟨h1, by simp, by simp, h4, by simp, by simp, by simp⟩
+  exact ⟨h1, by simp, by simp, h4, by simp, by simp, by simp, h8, h9, h10⟩
 
 theorem inv_consume (p : Params) (s : St) (h : Inv s) (id : Nat)
     (ha : Allowed s (.consume id) = true) : Inv (step p s (.consume id)).1 := by
@@ -288,22 +331,48 @@ theorem inv_consume (p : Params) (s : St) (h : Inv s) (id : Nat)
   split
   · exact h
   · rename_i r hfind
-    obtain ⟨h1, h2, h3, h4, h5, h6, h7⟩ := h
+    obtain ⟨h1, h2, h3, h4, h5, h6, h7, h8, h9, h10⟩ := h
     have hr : r ∈ s.db := List.mem_of_find?_eq_some hfind
     have hid : r.id = id := by simpa using List.find?_some hfind
     simp only [Inv]
-    refine ⟨(List.filter_sublist.map _).nodup h1, by simp [hu], h3, ?_, h5, h6, h7⟩
-    intro kv hkv
-    rcases h4 kv hkv with hc | ⟨r', hr', a, b⟩
-    · exact Or.inl (List.mem_append_left _ hc)
-    · by_cases e : r'.id = id
-      · have : r' = r := row_unique h1 hr' hr (e.trans hid.symm)
-        subst this
-        left
-        apply List.mem_append_right
-        exact List.mem_singleton.2 (Prod.ext a.symm b.symm)
-      · right
-        exact ⟨r', List.mem_filter.2 ⟨hr', by simpa using e⟩, a, b⟩
+    refine ⟨(List.filter_sublist.map _).nodup h1, by simp [hu], h3, ?_, h5, h6, h7, ?_, ?_, ?_⟩
+    · intro kv hkv
+      rcases h4 kv hkv with hc | ⟨r', hr', a, b⟩
+      · exact Or.inl (List.mem_append_left _ hc)
+      · by_cases e : r'.id = id
+        · have : r' = r := row_unique h1 hr' hr (e.trans hid.symm)
+          subst this
+          left
+          apply List.mem_append_right
+          exact List.mem_singleton.2 (Prod.ext a.symm b.symm)
+        · right
+          exact ⟨r', List.mem_filter.2 ⟨hr', by simpa using e⟩, a, b⟩
+    · intro r' hr' hm
+      obtain ⟨hm1, hm2⟩ := List.mem_filter.1 hr'
+      rcases List.mem_append.1 hm with hx | hx
+      · exact h8 r' hm1 hx
+      · have : r'.id = id := List.mem_singleton.1 hx
+        simp [this] at hm2
+    · intro kv hkv
+      rcases List.mem_append.1 hkv with hx | hx
+      · exact List.mem_append_left _ (h9 kv hx)
+      · have hx' := List.mem_singleton.1 hx
+        subst hx'
+        exact List.mem_append_right _ (List.mem_singleton.2 hid)
+    · intro a ha' b hb e
+      rcases List.mem_append.1 ha' with hx | hx <;> rcases List.mem_append.1 hb with hy | hy
+      · exact h10 a hx b hy e
+      · have hy' := List.mem_singleton.1 hy
+        subst hy'
+        have := h9 a hx
+        rw [e] at this
+        exact absurd this (h8 r hr)
+      · have hx' := List.mem_singleton.1 hx
+        subst hx'
+        have := h9 b hy
+        rw [← e] at this
+        exact absurd this (h8 r hr)
+      · rw [List.mem_singleton.1 hx, List.mem_singleton.1 hy]
 
 theorem inv_step (p : Params) (s : St) (h : Inv s) (e : Ev) (ha : Allowed s e = true) : Inv (step p s e).1 := by
   cases e with
@@ -394,19 +463,51 @@ theorem consume_once (p : Params) (s : St) (h : Inv s) (id : Nat) :
       simpa [List.find?_eq_none] using hno
     simp [step, this]
 
-/-- Without consumption of keys (so that no id is ever freed and re-used, see the known finding) the uploaded
-    flag is exact: a row is marked sent iff the server confirmed an upload containing exactly that key. -/
-def NoConsume (es : List Ev) : Prop := ∀ e ∈ es, ∀ id, e ≠ .consume id
+theorem offered_le (s : St) (h : Inv s) : ∀ kv ∈ s.offered, kv.1 ≤ maxIdAll s.db s.tomb := by
+  obtain ⟨h1, h2, h3, h4, h5, h6, h7, h8, h9, h10⟩ := h
+  intro kv hkv
+  rcases h4 kv hkv with hc | ⟨r, hr, a, _⟩
+  · exact tomb_le_all _ (h9 kv hc)
+  · rw [← a]; exact Nat.le_trans (le_maxId hr) (maxId_le_all _ _)
 
+/-- an id that was ever offered names one key: the live row with that id, or the consumed key with that id -/
+theorem offered_unique_inv (s : St) (h : Inv s) : ∀ a ∈ s.offered, ∀ b ∈ s.offered, a.1 = b.1 → a = b := by
+  obtain ⟨h1, h2, h3, h4, h5, h6, h7, h8, h9, h10⟩ := h
+  intro a ha b hb e
+  rcases h4 a ha with hca | ⟨ra, hra, a1, a2⟩ <;> rcases h4 b hb with hcb | ⟨rb, hrb, b1, b2⟩
+  · exact h10 a hca b hcb e
+  · have := h9 a hca
+    rw [e, ← b1] at this
+    exact absurd this (h8 rb hrb)
+  · have := h9 b hcb
+    rw [← e, ← a1] at this
+    exact absurd this (h8 ra hra)
+  · have := row_unique h1 hra hrb (a1.trans (e.trans b1.symm))
+    subst this
+    exact Prod.ext e (a2.symm.trans b2)
+
+theorem offered_available (p : Params) (es : List Ev) (ha : AllowedRun p {} es = true) :
+    let s := (run p {} es).1
+    ∀ kv ∈ s.offered, kv ∈ s.consumed ∨ ∃ r ∈ s.db, r.id = kv.1 ∧ r.key = kv.2 :=
+  (inv_run p {} inv_init es ha).2.2.2.1
+
+theorem offered_ids_unique (p : Params) (es : List Ev) (ha : AllowedRun p {} es = true) :
+    let s := (run p {} es).1
+    ∀ a ∈ s.offered, ∀ b ∈ s.offered, a.1 = b.1 → a = b :=
+  offered_unique_inv _ (inv_run p {} inv_init es ha)
+
+/-- The uploaded flag is exact: a row is marked sent iff the server confirmed an upload containing exactly that
+    key; and only offered keys are ever confirmed. -/
 def SentExact (s : St) : Prop :=
   (∀ r ∈ s.db, r.sent = true ↔ (r.id, r.key) ∈ s.confirmed) ∧
-  (∀ kv ∈ s.offered, ∃ r ∈ s.db, r.id = kv.1 ∧ r.key = kv.2) ∧
   (∀ kv ∈ s.confirmed, kv ∈ s.offered)
 
-theorem sx_ext {db : List Row} {confirmed offered : List (Nat × Nat)}
+theorem sx_init : SentExact {} := by simp [SentExact]
+
+theorem sx_ext {db : List Row} {tomb : List Nat} {confirmed offered : List (Nat × Nat)}
     (hA : ∀ r ∈ db, r.sent = true ↔ (r.id, r.key) ∈ confirmed)
-    (hB : ∀ kv ∈ offered, ∃ r ∈ db, r.id = kv.1 ∧ r.key = kv.2)
-    (hC : ∀ kv ∈ confirmed, kv ∈ offered) {ks : List (Nat × Nat)} (hf : ∀ kv ∈ ks, maxId db < kv.1) :
+    (hB : ∀ kv ∈ offered, kv.1 ≤ maxIdAll db tomb)
+    (hC : ∀ kv ∈ confirmed, kv ∈ offered) {ks : List (Nat × Nat)} (hf : ∀ kv ∈ ks, maxIdAll db tomb < kv.1) :
     ∀ r ∈ db ++ ks.map mkRow, r.sent = true ↔ (r.id, r.key) ∈ confirmed := by
   intro r hr
   rcases List.mem_append.1 hr with hr | hr
@@ -415,54 +516,40 @@ theorem sx_ext {db : List Row} {confirmed offered : List (Nat × Nat)}
     constructor
     · intro hx; cases hx
     · intro hc
-      obtain ⟨r', hr', a, _⟩ := hB _ (hC _ hc)
-      have h1 := le_maxId hr'
+      have h1 := hB _ (hC _ hc)
       have h2 := hf kv hkv
-      have h3 : r'.id = kv.1 := a
+      simp only [mkRow] at h1
       omega
 
-theorem mem_ext {db : List Row} {offered : List (Nat × Nat)}
-    (hB : ∀ kv ∈ offered, ∃ r ∈ db, r.id = kv.1 ∧ r.key = kv.2) (ext : List Row) :
-    ∀ kv ∈ offered, ∃ r ∈ db ++ ext, r.id = kv.1 ∧ r.key = kv.2 := by
-  intro kv hkv
-  obtain ⟨r, hr, x⟩ := hB kv hkv
-  exact ⟨r, List.mem_append_left _ hr, x⟩
-
-theorem sx_connect (p : Params) (s : St) (hs : SentExact s) : SentExact (step p s .connect).1 := by
-  obtain ⟨hA, hB, hC⟩ := hs
+theorem sx_connect (p : Params) (s : St) (h : Inv s) (hs : SentExact s) : SentExact (step p s .connect).1 := by
+  obtain ⟨hA, hC⟩ := hs
+  have hB := offered_le s h
   have hdb := level_db p s false
   have hfresh := level_fresh p s false
   simp only [step, SentExact, level_offered, level_confirmed]
   rw [hdb]
   generalize (levelPrekeys p s false).2 = ks at hfresh
-  exact ⟨sx_ext hA hB hC hfresh, mem_ext hB _, hC⟩
+  exact ⟨sx_ext hA hB hC hfresh, hC⟩
 
-theorem sx_serverAsksKeys (p : Params) (s : St) (hs : SentExact s) : SentExact (step p s .serverAsksKeys).1 := by
-  obtain ⟨hA, hB, hC⟩ := hs
+theorem sx_serverAsksKeys (p : Params) (s : St) (h : Inv s) (hs : SentExact s) :
+    SentExact (step p s .serverAsksKeys).1 := by
+  obtain ⟨hA, hC⟩ := hs
+  have hB := offered_le s h
   have hdb := level_db p s true
   have hfresh := level_fresh p s true
   simp only [step, SentExact, flushKeys, level_offered, level_confirmed]
   rw [hdb]
   generalize (levelPrekeys p s true).2 = ks at hfresh
-  refine ⟨sx_ext hA hB hC hfresh, ?_, fun kv hkv => List.mem_append_left _ (hC kv hkv)⟩
-  intro kv hkv
-  rcases List.mem_append.1 hkv with hk | hk
-  · exact mem_ext hB _ kv hk
-  · exact ⟨mkRow kv, List.mem_append_right _ (List.mem_map_of_mem hk), rfl, rfl⟩
+  exact ⟨sx_ext hA hB hC hfresh, fun kv hkv => List.mem_append_left _ (hC kv hkv)⟩
 
-theorem sx_authed (p : Params) (s : St) (h : Inv s) (hs : SentExact s) (passive : Bool) :
+theorem sx_authed (p : Params) (s : St) (hs : SentExact s) (passive : Bool) :
     SentExact (step p s (.authed passive)).1 := by
-  obtain ⟨hA, hB, hC⟩ := hs
+  obtain ⟨hA, hC⟩ := hs
   simp only [step]
   split
   · simp only [SentExact, flushKeys]
-    refine ⟨hA, ?_, fun kv hkv => List.mem_append_left _ (hC kv hkv)⟩
-    intro kv hkv
-    rcases List.mem_append.1 hkv with hk | hk
-    · exact hB kv hk
-    · obtain ⟨r, hr, a, b, _⟩ := h.2.1 kv (dedup_sub _ _ hk)
-      exact ⟨r, hr, a, b⟩
-  · exact ⟨hA, hB, hC⟩
+    exact ⟨hA, fun kv hkv => List.mem_append_left _ (hC kv hkv)⟩
+  · exact ⟨hA, hC⟩
 
 theorem sx_uploaded (s : St) (h : Inv s) (hs : SentExact s) (rid : Nat) (u : Upload) (hu : u ∈ s.inflight)
     (rb : Bool) :
@@ -470,21 +557,27 @@ theorem sx_uploaded (s : St) (h : Inv s) (hs : SentExact s) (rid : Nat) (u : Upl
                  inflight := s.inflight.filter (fun x => x.rid != rid),
                  db := s.db.map (fun r => if (u.keys.map Prod.fst).contains r.id then { r with sent := true } else r),
                  confirmed := s.confirmed ++ u.keys, rebootFlag := rb } := by
-  obtain ⟨hA, hB, hC⟩ := hs
+  obtain ⟨hA, hC⟩ := hs
   have h5 := h.2.2.2.2.1 u hu
+  have h4 := h.2.2.2.1
+  have h8 := h.2.2.2.2.2.2.2.1
+  have h9 := h.2.2.2.2.2.2.2.2.1
   simp only [SentExact]
-  refine ⟨?_, ?_, ?_⟩
+  refine ⟨?_, ?_⟩
   · intro r' hr'
     obtain ⟨r, hr, rfl⟩ := List.mem_map.1 hr'
     by_cases hc : (u.keys.map Prod.fst).contains r.id = true
     · simp only [hc, if_true, true_iff]
       obtain ⟨kv, hkv, e⟩ := List.mem_map.1 (List.contains_iff_mem.1 hc)
-      obtain ⟨r2, hr2, a, b⟩ := hB kv (h5 kv hkv)
-      have := row_unique h.1 hr2 hr (a.trans e)
-      subst this
-      apply List.mem_append_right
-      have : kv = (r2.id, r2.key) := Prod.ext a.symm b.symm
-      rw [← this]; exact hkv
+      rcases h4 kv (h5 kv hkv) with hcons | ⟨r2, hr2, a, b⟩
+      · have := h9 kv hcons
+        rw [e] at this
+        exact absurd this (h8 r hr)
+      · have := row_unique h.1 hr2 hr (a.trans e)
+        subst this
+        apply List.mem_append_right
+        have : kv = (r2.id, r2.key) := Prod.ext a.symm b.symm
+        rw [← this]; exact hkv
     · simp only [hc]
       refine (hA r hr).trans ?_
       constructor
@@ -494,20 +587,16 @@ theorem sx_uploaded (s : St) (h : Inv s) (hs : SentExact s) (rid : Nat) (u : Upl
         · exact x
         · exact absurd (List.contains_iff_mem.2 (List.mem_map_of_mem (f := Prod.fst) x)) hc
   · intro kv hkv
-    obtain ⟨r, hr, a, b⟩ := hB kv hkv
-    obtain ⟨r', hr', a', b'⟩ := mem_map_mark (u.keys.map Prod.fst) hr
-    exact ⟨r', hr', a'.trans a, b'.trans b⟩
-  · intro kv hkv
     rcases List.mem_append.1 hkv with hk | hk
     · exact hC kv hk
     · exact h5 kv hk
 
-theorem sent_exact_step (p : Params) (s : St) (h : Inv s) (hs : SentExact s) (e : Ev) (ha : Allowed s e = true)
-    (hn : ∀ id, e ≠ .consume id) : SentExact (step p s e).1 := by
+theorem sent_exact_step (p : Params) (s : St) (h : Inv s) (hs : SentExact s) (e : Ev) :
+    SentExact (step p s e).1 := by
   cases e with
-  | connect => exact sx_connect p s hs
-  | authed passive => exact sx_authed p s h hs passive
-  | serverAsksKeys => exact sx_serverAsksKeys p s hs
+  | connect => exact sx_connect p s h hs
+  | authed passive => exact sx_authed p s hs passive
+  | serverAsksKeys => exact sx_serverAsksKeys p s h hs
   | uploadResult rid =>
     simp only [step]
     split
@@ -524,18 +613,26 @@ theorem sent_exact_step (p : Params) (s : St) (h : Inv s) (hs : SentExact s) (e 
     simp only [step]
     split <;> exact hs
   | restart => exact hs
-  | consume id => exact absurd rfl (hn id)
+  | consume id =>
+    simp only [step]
+    split
+    · exact hs
+    · exact ⟨fun r hr => hs.1 r (List.mem_filter.1 hr).1, hs.2⟩
 
-theorem sent_exact_run (p : Params) (s : St) (h : Inv s) (hs : SentExact s) (es : List Ev)
-    (ha : AllowedRun p s es = true) (hn : NoConsume es) : SentExact (run p s es).1 := by
+theorem sent_exact_run_from (p : Params) (s : St) (h : Inv s) (hs : SentExact s) (es : List Ev)
+    (ha : AllowedRun p s es = true) : SentExact (run p s es).1 := by
   induction es generalizing s with
   | nil => exact hs
   | cons e es ih =>
     simp only [AllowedRun, Bool.and_eq_true] at ha
     simp only [run]
-    have hne : ∀ id, e ≠ .consume id := hn e (by simp)
-    exact ih _ (inv_step p s h e ha.1) (sent_exact_step p s h hs e ha.1 hne) ha.2
-      (fun e' he' => hn e' (List.mem_cons_of_mem _ he'))
+    exact ih _ (inv_step p s h e ha.1) (sent_exact_step p s h hs e) ha.2
+
+/-- for EVERY allowed history (consumption included): sent ↔ confirmed, and only offered keys are confirmed -/
+theorem sent_exact_run (p : Params) (es : List Ev) (ha : AllowedRun p {} es = true) :
+    let s := (run p {} es).1
+    (∀ r ∈ s.db, r.sent = true ↔ (r.id, r.key) ∈ s.confirmed) ∧ (∀ kv ∈ s.confirmed, kv ∈ s.offered) :=
+  sent_exact_run_from p {} inv_init sx_init es ha
 
 /-- `adjustId`: three bytes, big-endian, for every id below 2^24; injective there -/
 theorem adjustId_spec (n : Nat) (h : n < 16777216) :
